@@ -2,8 +2,12 @@ package checks
 
 import (
 	"bytes"
+	"context"
 	"errors"
 	"fmt"
+	"io"
+	"net"
+	"net/url"
 	"os"
 	"reflect"
 	"strings"
@@ -32,6 +36,7 @@ type c20inner struct {
 	failBody  []byte
 	urls      []string
 	at        []time.Duration
+	failErr   func(call int) error
 }
 
 func (g *c20inner) Get(url string) (map[string][]string, []byte, error) {
@@ -44,6 +49,9 @@ func (g *c20inner) Get(url string) (map[string][]string, []byte, error) {
 	}
 	if g.failFirst < 0 || g.calls <= g.failFirst {
 		// a failed attempt also returns stale-looking data that must never reach the caller
+		if g.failErr != nil {
+			return g.failHdr, g.failBody, g.failErr(g.calls)
+		}
 		return g.failHdr, g.failBody, errors.New("scripted failure")
 	}
 	return g.header, g.body, nil
@@ -91,10 +99,41 @@ func runC20(r *mc.Run) {
 		{"empty-header+empty-body", map[string][]string{}, []byte{}},
 		{"header-with-empty-value+one-byte-body", map[string][]string{"": nil}, []byte{0}},
 	}
+	// kinds of failure of the wrapped getter: whatever the error looks like, it is a failed attempt to be retried
+	type errKind struct {
+		name string
+		mk   func(call int) error
+	}
+	errKinds := []errKind{
+		{"", nil},
+		{"context.DeadlineExceeded", func(int) error { return context.DeadlineExceeded }},
+		{"wrapped-context.DeadlineExceeded", func(int) error {
+			return &url.Error{Op: "Get", URL: "https://example.test/x", Err: fmt.Errorf("dial: %w", context.DeadlineExceeded)}
+		}},
+		{"context.Canceled", func(int) error { return fmt.Errorf("request: %w", context.Canceled) }},
+		{"os.ErrDeadlineExceeded", func(int) error { return &net.OpError{Op: "read", Net: "tcp", Err: os.ErrDeadlineExceeded} }},
+		{"io.EOF", func(int) error { return io.EOF }},
+		{"io.ErrUnexpectedEOF-then-timeout", func(call int) error {
+			if call%2 == 1 {
+				return io.ErrUnexpectedEOF
+			}
+			return c20timeoutErr{}
+		}},
+		{"error-named-timeout", func(int) error { return errors.New("timeout") }},
+		{"nil-typed-url-error", func(int) error { return &url.Error{Op: "Get", URL: "u", Err: errors.New("status 404")} }},
+	}
 	// The clock is global to the process: executions are run one at a time.
 	for gi, gr := range grids {
-		for si, sh := range shapes {
-			if si > 0 && !(gr.def || gi%7 == 3) {
+		for si0 := 0; si0 < len(shapes)+len(errKinds)-1; si0++ {
+			si, ek := si0, errKinds[0]
+			if si0 >= len(shapes) {
+				si, ek = 1, errKinds[si0-len(shapes)+1]
+				if !(gr.def || gi%5 == 2) {
+					continue // the other error kinds on the default configuration and on every 5th grid point
+				}
+			}
+			sh := shapes[si]
+			if si > 0 && ek.mk == nil && !(gr.def || gi%7 == 3) {
 				continue // the other response shapes on the default configuration and on every 7th grid point
 			}
 			for _, lat := range []time.Duration{0, time.Second} {
@@ -109,6 +148,9 @@ func runC20(r *mc.Run) {
 					if si > 0 {
 						name += ",response=" + sh.name
 					}
+					if ek.mk != nil {
+						name += ",failure=" + ek.name
+					}
 					attemptsSeen := 0
 					st := exploreSerial(r, name, bound, func(c *mc.Ctx) {
 						vsched.Reset()
@@ -118,7 +160,7 @@ func runC20(r *mc.Run) {
 						wantHdr, wantBody = sh.header, sh.body
 						inner := &c20inner{failFirst: k, latency: lat,
 							header: cloneHdr(sh.header), body: cloneBytes(sh.body),
-							failHdr: map[string][]string{"X-Stale": {"stale"}}, failBody: []byte("stale body")}
+							failHdr: map[string][]string{"X-Stale": {"stale"}}, failBody: []byte("stale body"), failErr: ek.mk}
 						var getter *trust.RetryHTTPSGetter
 						if gr.def {
 							dg, ok := trust.DefaultHTTPSGetter().(*trust.RetryHTTPSGetter)
@@ -177,6 +219,12 @@ var (
 	wantHdr  map[string][]string
 	wantBody []byte
 )
+
+type c20timeoutErr struct{}
+
+func (c20timeoutErr) Error() string   { return "i/o timeout" }
+func (c20timeoutErr) Timeout() bool   { return true }
+func (c20timeoutErr) Temporary() bool { return true }
 
 func cloneHdr(h map[string][]string) map[string][]string {
 	if h == nil {
